@@ -95,10 +95,6 @@ theorem wf_remove : ∀ (f : List String) (d d' : J), wf d = true → remove d f
           · simp [pure, Except.pure] at h; subst h; exact wf_obj_iff.2 (wfKvs_insert (wf_obj_iff.1 hd) hwc)
     | _ => simp [remove] at h
 
-theorem wf_remove2 {e e' : J} {f t : List String} (he : wf e = true) (h : remove2 e f t = .ok e') : wf e' = true := by
-  obtain ⟨e1, r1, r2⟩ := remove2_ok h
-  exact wf_remove t e1 e' (wf_remove f e e1 he r1) r2
-
 theorem wf_cherrypick (src : J) (hs : wf src = true) : ∀ (fs : List (List String)) (d d' : J),
     wf d = true → cherrypick src d fs = .ok d' → wf d' = true
   | [], d, d', hd, h => by simp [cherrypick] at h; subst h; exact hd
@@ -117,6 +113,17 @@ theorem wf_cherrypick (src : J) (hs : wf src = true) : ∀ (fs : List (List Stri
         rw [he] at h
         simp only [bind, Except.bind] at h
         exact wf_cherrypick src hs fs d1 d' (wf_ensure f d d1 v hd (wf_resolveE f src v hs hr) (liftD_ok he)) h
+
+theorem wf_cherrypickSkip (src : J) (hs : wf src = true) : ∀ (fs : List (List String)) (d d' : J),
+    wf d = true → cherrypickSkip src d fs = .ok d' → wf d' = true
+  | [], d, d', hd, h => by simp [cherrypickSkip] at h; subst h; exact hd
+  | f :: fs, d, d', hd, h => by
+    simp only [cherrypickSkip] at h
+    cases hc : cherrypick src d [f] with
+    | ok d1 => rw [hc] at h; exact wf_cherrypickSkip src hs fs d1 d' (wf_cherrypick src hs [f] d d1 hd hc) h
+    | error e =>
+      rw [hc] at h
+      cases e <;> simp only [] at h <;> first | exact wf_cherrypickSkip src hs fs d d' hd h | cases h
 
 theorem wf_metaSet {e v : J} {name : String} (he : wf e = true) (hv : wf v = true) : wf (metaSet e name v) = true := by
   unfold metaSet
@@ -226,12 +233,12 @@ theorem wf_baseBuild {ig extra : List (List String)} {b e : J} (hb : wf b = true
     simp only [tailBuild] at h
     split at h
     · cases h
-    · cases h3 : cherrypick (.obj kvs) (stage2 e1) extra with
+    · cases h3 : cherrypickSkip (.obj kvs) (stage2 e1) extra with
       | error er => rw [h3] at h; cases h
       | ok e3 =>
         rw [h3] at h
         simp only [] at h
-        have w3 := wf_cherrypick _ hb _ _ _ (wf_filterAnnotations _ w1) h3
+        have w3 := wf_cherrypickSkip _ hb _ _ _ (wf_filterAnnotations _ w1) h3
         split at h
         · cases h
         · exact wf_ignoreFields ig _ e (wf_removeEmptyStanzas w3) h
@@ -254,7 +261,7 @@ theorem wf_leafBuild {hs : Hashes} {extra : List (List String)} {b e : J} (l : D
   | status f ig =>
     simp only [leafBuild] at h
     obtain ⟨e1, h1, h2⟩ := bind_ok h
-    exact wf_remove f e1 e (wf_baseBuild hb h1) (liftD_ok h2)
+    exact wf_ignoreFields [f] e1 e (wf_baseBuild hb h1) h2
 
 theorem wf_pseudoBody {orig e : J} (ho : wf orig = true) (he : wf e = true) : wf (pseudoBody orig e) = true := by
   cases e with
@@ -325,7 +332,7 @@ theorem wf_progressClear : ∀ (p : ProgressCfg) (e e' : J), wf e = true → pro
     refine wf_progressClear ls e1 e' ?_ h3
     simp only [clearLeaf] at h1
     obtain ⟨e0, h0, h2⟩ := bind_ok h1
-    have w0 := wf_remove2 he (liftD_ok h0)
+    have w0 := wf_ignoreFields [f, t] e e0 he h0
     cases hm : metaOK e0 with
     | false => simp [hm, throw, throwThe, MonadExceptOf.throw, bind, Except.bind] at h2
     | true =>
